@@ -83,19 +83,23 @@ Theorem C17_dial_target_unix : forall st k h p path d,
 Proof. exact dial_target_unix. Qed.
 Print Assumptions C17_dial_target_unix.
 
-(* Finding K5 — the override clause does NOT extend to a bracketed IPv6 dial_addr without port: the brackets are
-   kept and bracketed again.  (Full statement that fails:  forall v, wf_host (HV6 v) ->
-   ep_dial (endpoint_of url ("[" ++ v ++ "]")) = join_host_port v default.) *)
-Theorem C17_dial_addr_brackets_refuted :
-  exists v ep, wf_host (HV6 v) = true /\
-    endpoint_of (s2l "tls://localhost") (ch_lbr :: v ++ [ch_rbr]) = Ok ep /\
-    ep_dial ep = s2l "[[::1]]:853" /\
-    ep_dial ep <> join_host_port v (default_port STls).
-Proof.
-  exists (s2l "::1"). eexists. split; [reflexivity|]. split; [vm_compute; reflexivity|].
-  split; [reflexivity|]. vm_compute. discriminate.
-Qed.
-Print Assumptions C17_dial_addr_brackets_refuted.
+(* ... and the bracketed IPv6 override WITHOUT a port ("[::1]"): the dial target is the literal itself with the
+   scheme's default port (finding K5: before the fix the brackets were kept and doubled, "[[::1]]:853"). *)
+Theorem C17_dial_target_override_bracketed : forall st k h p path v,
+  scheme_entry st k -> path_ok st path -> wf_host h = true -> wf_port_opt p = true ->
+  wf_host (HV6 v) = true ->
+  let sc := fst (fst k) in let h3 := snd k in
+  exists ep, endpoint_of (url_of st h p path) (ch_lbr :: v ++ [ch_rbr]) = Ok ep /\
+    ep_dial ep = join_host_port v (default_port sc) /\
+    ep_net ep = expected_net sc h3 /\
+    ep_sni ep = (if uses_tls sc then Some (host_name h) else None) /\
+    ep_host ep = (if uses_http sc then Some (authority h p) else None).
+Proof. exact dial_target_override_bracketed. Qed.
+Print Assumptions C17_dial_target_override_bracketed.
+
+Example C17_dial_addr_brackets_example :
+  exists ep, endpoint_of (s2l "tls://localhost") (s2l "[::1]") = Ok ep /\ ep_dial ep = s2l "[::1]:853".
+Proof. eexists. split; vm_compute; reflexivity. Qed.
 
 (* --- certificate verification ---------------------------------------------------------------------------- *)
 (* crypto/x509 (chain building, name matching, validity period) are oracles; the theorems are the decision rule
